@@ -109,6 +109,21 @@ func simParams(r *simrt.Rand, c *Cfg, pf *Profile) {
 // generate builds a configuration and a program from a profile.
 func generate(r *simrt.Rand, pf *Profile) (Cfg, *Program) {
 	var c Cfg
+	if *fTier == "thorough" && pf.Adds[1] < 100 && r.Chance(35) {
+		// thorough tier: a share of larger programs (more producers, longer scripts)
+		cp := *pf
+		pf = &cp
+		pf.Producers[1] += 2
+		pf.Adds[1] = pf.Adds[1]*2 + 2
+		pf.CtrlOps[1] = pf.CtrlOps[1] * 3 / 2
+		pf.CancelOps[1] = pf.CancelOps[1] * 2
+		pf.WaitOps[1] = pf.WaitOps[1] * 2
+		pf.SampleOps[1] = pf.SampleOps[1] * 2
+		pf.BatchMax = pf.BatchMax*2 + 1
+		if pf.MaxSteps == 0 {
+			pf.MaxSteps = 600000
+		}
+	}
 	c.WKind = pick(r, pf.WKinds)
 	c.Conc = pick(r, pf.Conc)
 	c.Expiry = pick(r, pf.Expiry)
@@ -323,6 +338,11 @@ func generate(r *simrt.Rand, pf *Profile) (Cfg, *Program) {
 		ops = append(ops, Op{K: opSettle, A: 2})
 		p.Tasks = append(p.Tasks, ops)
 	}
+	// the step cap is a livelock detector, not a budget: scale it with the program
+	// (worst case ~1500 steps per job with every statement yield enabled; x4 margin)
+	if n := 60000 + 6000*len(p.Subs); n > c.MaxSteps {
+		c.MaxSteps = n
+	}
 	return c, p
 }
 
@@ -389,7 +409,7 @@ func init() {
 			pf.Cancel = []wop{{opCloseJob, 6}, {opPurge, 2}, {opCloseQueue, 1}}
 			pf.Releaser = 50
 			pf.ErrReaderPct = 30
-			if tier == "thorough" && r.Chance(3) {
+			if tier == "thorough" && r.Intn(1000) < 4 {
 				// bursts across the real segment sizes (1024, 1536, ...)
 				pf.SmallChunksPct = 0
 				pf.Producers = [2]int{1, 2}
@@ -397,7 +417,6 @@ func init() {
 				pf.GatedPct, pf.DelayPct, pf.BatchPct = 0, 0, 0
 				pf.Ctrl, pf.Cancellers = nil, [2]int{0, 0}
 				pf.QKinds = []int{qkStd}
-				pf.MaxSteps = 4000000
 			}
 			return generate(r, pf)
 		},
